@@ -27,7 +27,7 @@ class C18(Prop):
         return [("sync", 3), ("async", 2)]
 
     def expected_counters(self, tier):
-        return ["probe.strays-consumed", "probe.strays-span-beyond-T", "probe.match-before-deadline", "probe.match-after-deadline", "probe.silent", "probe.return-time-checked", "probe.many-strays"]
+        return ["probe.strays-consumed", "probe.strays-span-beyond-T", "probe.match-before-deadline", "probe.match-after-deadline", "probe.silent", "probe.return-time-checked", "probe.many-strays", "probe.refresh-checked", "fault.slow-client"]
 
     def gen(self, rng, family, tier):
         ver = rng.choice(["v1", "v2c", "v3"])
@@ -44,7 +44,10 @@ class C18(Prop):
         oids = [r[0] for r in agent["mib"]] or ["1.3.6.1.2.1.1.1.0"]
         ops, scripts = [], {}
         for opid in range(1, rng.randint(1, 3) + 1):
-            ops.append({"id": opid, "s": 0, "op": "get", "oid": rng.choice(oids)})
+            if ver == "v3" and sess["user"].get("auth") and rng.random() < 0.3:
+                ops.append({"id": opid, "s": 0, "op": "refresh"})  # one exchange: engine id given, auth configured
+            else:
+                ops.append({"id": opid, "s": 0, "op": "get", "oid": rng.choice(oids)})
             k = rng.choice([0, 0, 1, 2, 3, 5, 8, 12])
             items = []
             t = 0
@@ -88,8 +91,11 @@ class C18(Prop):
         enq = {ev[3]: ev[2] for ev in run.sim.hist if ev[0] == "enq"}
         shape = []
         for res in run.results:
-            if res["op"]["op"] != "get":
+            if res["op"]["op"] not in ("get", "refresh"):
                 continue
+            is_refresh = res["op"]["op"] == "refresh"
+            if is_refresh:
+                run.sim.count("probe.refresh-checked")
             exs = run.exchanges(res)
             if len(exs) != 1:
                 continue
@@ -126,7 +132,7 @@ class C18(Prop):
                 run.sim.count("probe.match-before-deadline")
                 if in_time[0][0] - t_tx > T // 2 and strays_before:
                     run.sim.count("probe.strays-span-beyond-T")
-                exp = oracle.expect_get(in_time[0][1])
+                exp = ("value", None) if is_refresh else oracle.expect_get(in_time[0][1])
                 for v in _compare(res, exp, "matching reply arrived %.6f s after the request (timeout %.3f s, %d stray datagrams first)" % ((in_time[0][0] - t_tx) / 1e9, T / 1e9, strays_before)):
                     v.oracle = "C18.match-in-time-not-delivered"
                     v.key = {"flavour": run.plan["flavour"]}
